@@ -140,6 +140,7 @@ def run(ctx) -> int:
     time_limit_status(ctx)
     drv.d1(ctx, WHICH, 20000 if ctx.thorough else 5000, NT, allow_abort=False)
     drv.d2_random(ctx, WHICH, NT, 3000 if ctx.thorough else 1000, aborts=False)
+    drv.d2_content_oracles(ctx, WHICH, NT)
     return common.decide(ctx, proof, RULE, search=search)
 
 
